@@ -115,6 +115,7 @@ type undoRec struct {
 }
 
 type Path struct {
+	noStub     map[string]bool // environment functions whose model is switched off on this path (gsxrt.RealEnv)
 	ex         *Explorer
 	solver     *Solver
 	script     []int
@@ -609,7 +610,7 @@ func (ex *Explorer) worker(id int) {
 
 func (ex *Explorer) runPath(in *interpreter, solver *Solver, script []int) {
 	p := &Path{ex: ex, solver: solver, script: script, sorts: map[string]Sort{}, nameCount: map[string]int{},
-		reached: map[string]bool{}, memo: map[string]value{}, funcs: map[string]bool{}}
+		reached: map[string]bool{}, memo: map[string]value{}, funcs: map[string]bool{}, noStub: map[string]bool{}}
 	p.lz = newLazyState(p)
 	in.path = p
 	status := "ok"
